@@ -56,7 +56,7 @@ def finding_key(case, obs):
     return None
 
 
-def kwval(rng, axes, vals, allow_partial=True):
+def kwval(rng, axes, vals, allow_partial=True, none_entries=False):
     r = rng.random()
     if r < 0.25:
         return None
@@ -65,7 +65,13 @@ def kwval(rng, axes, vals, allow_partial=True):
     if r < 0.8 or not allow_partial:
         return {a: rng.choice(vals) for a in axes}
     sub = [a for a in axes if rng.random() < 0.5] or [axes[0]]
-    return {a: rng.choice(vals) for a in sub}
+    m = {a: rng.choice(vals) for a in sub}
+    if none_entries and rng.random() < 0.4:
+        # an axis may also be named with None: "nothing chosen for this axis"
+        for a in axes:
+            if a not in m and rng.random() < 0.6:
+                m[a] = None
+    return m
 
 
 def systematic():
@@ -82,6 +88,14 @@ def systematic():
                     call = {"dims": [["x_c", 3]], "vals": [10, 14, 20], "bw": [["X", [1, 1]]], "dtype": "float64",
                             "boundary": kb, "fill": kf}
                     out.append({"ctor": ctor, "call": call})
+    for dtype in ("int16", "int64", "float32"):
+        for fx, fy in ((0.5, 70000), (70000, 0.5), (0.5, 3), (-40000, 2.5)):
+            for order in (("X", "Y"), ("Y", "X")):
+                ctor = {"coords": [["X", [["center", "x_c"]]], ["Y", [["center", "y_c"]]]], "N": {"X": 2, "Y": 2},
+                        "periodic": False, "boundary": "fill", "fill": None}
+                call = {"dims": [["y_c", 2], ["x_c", 2]], "vals": [10, 14, 20, 21], "dtype": dtype,
+                        "bw": [[a, [1, 1]] for a in order], "boundary": None, "fill": {"X": fx, "Y": fy}}
+                out.append({"ctor": ctor, "call": call})
     return out
 
 
@@ -107,7 +121,8 @@ def generate(rng, tier):
         else:
             periodic = {a: rng.random() < 0.5 for a in axes}
         ctor = {"coords": coords, "N": N, "periodic": periodic,
-                "boundary": kwval(rng, axes, WORDS), "fill": kwval(rng, axes, [0, 3, -2, 7])}
+                "boundary": kwval(rng, axes, WORDS, none_entries=True),
+                "fill": kwval(rng, axes, [0, 3, -2, 7], none_entries=True)}
         call = None
         if rng.random() < 0.85:
             dims = []
@@ -133,8 +148,10 @@ def generate(rng, tier):
                 size *= l
             vals = [10 + 3 * i + (i * i) % 7 for i in range(size)]
             call = {"dims": [[d, l] for d, l, _ in dims], "vals": vals, "bw": bw,
-                    "dtype": rng.choice(["float64", "float64", "int64", "float32"]),
-                    "boundary": kwval(rng, axes, WORDS), "fill": kwval(rng, axes, [0, 5, -1, 9, 0.5, -2.75])}
+                    "dtype": rng.choice(["float64", "float64", "int64", "float32", "int16"]),
+                    "boundary": kwval(rng, axes, WORDS),
+                    # (70000 does not fit a 16-bit integer, 0.5 no integer at all)
+                    "fill": kwval(rng, axes, [0, 5, -1, 9, 0.5, -2.75, 70000])}
         cases.append({"ctor": ctor, "call": call})
     return cases
 
